@@ -585,7 +585,15 @@ func init() {
 	})
 }
 
+var methodKindNext int
+
 func genMethodCase(r *h.Rand) h.Case {
-	w := r.Pick([]string{"valueMethod", "valueMethodPtr", "ptrMethod", "deep", "none", "mixed", "mixedRev", "cycSelf", "cycPair", "unicode"})
+	// every kind in turn (the cases are deterministic: each kind once is what matters), then at random
+	kinds := []string{"valueMethod", "valueMethodPtr", "ptrMethod", "deep", "none", "mixed", "mixedRev", "cycSelf", "cycPair", "unicode"}
+	w := r.Pick(kinds)
+	if methodKindNext < len(kinds) {
+		w = kinds[methodKindNext]
+		methodKindNext++
+	}
 	return h.Case{Stream: "methods", NoModel: true, NonTrivial: true, Tags: []string{w}, Cmd: sx.L(sx.A("method-access"), sx.A(w))}
 }
